@@ -40,8 +40,10 @@ def gen_supports(rng, n):
             out.append(0.0)
         elif k < 0.6:
             out.append(float(rng.randint(1, 9)))
-        elif k < 0.85:
+        elif k < 0.8:
             out.append(rng.uniform(0.001, 1.0))
+        elif k < 0.85:
+            out.append(rng.choice([2e-9, 1e-9, 3e-10, 4e-12]))     # tiny, but a support: not a zero-support candidate
         else:
             out.append(10.0 ** rng.randint(-4, 2) * rng.randint(1, 9))
     if all(x == 0 for x in out):
